@@ -84,26 +84,27 @@ pub fn base_weights(prop: &str) -> Vec<u32> {
             set(stat);
             set(refresh);
             set(edits);
+            set(&[(Reload, 2)]);
         }
         "C04" => {
             set(stat);
             set(refresh);
-            set(&[(Rekey, 6)]);
+            set(&[(Rekey, 6), (Reload, 1)]);
         }
         "C05" => {
             set(stat);
             set(refresh);
-            set(&[(Rekey, 5), (Prune, 4), (DelAttr, 2), (DelDim, 1), (Update, 3)]);
+            set(&[(Rekey, 5), (Prune, 4), (DelAttr, 2), (DelDim, 1), (Update, 3), (AddAttr, 2), (AddDim, 1), (Reload, 1)]);
         }
         "C06" => {
             set(stat);
             set(refresh);
-            set(&[(Rekey, 4), (Prune, 2), (DisableAttr, 4), (Update, 4), (DeriveMpk, 3), (Reload, 3)]);
+            set(&[(Rekey, 4), (Prune, 2), (DisableAttr, 4), (Update, 4), (DeriveMpk, 3), (Reload, 3), (AddAttr, 2), (AddDim, 1), (DelAttr, 1)]);
         }
         "C18" => {
             set(stat);
             set(refresh);
-            set(&[(Rekey, 4), (Prune, 3), (DisableAttr, 3), (DelAttr, 2), (Update, 4), (Recaps, 8)]);
+            set(&[(Rekey, 4), (Prune, 3), (DisableAttr, 3), (DelAttr, 2), (Update, 4), (Recaps, 8), (Reload, 1), (AddAttr, 1)]);
         }
         "C09" | "C10" => {
             set(stat);
@@ -351,6 +352,51 @@ impl Gen {
                 d.attrs.push(MAttr { ident: 0, name: an, hybrid, disabled: false });
             }
             s.dims.push(d);
+        }
+        // The structure handed to the first update may itself be the result of an edit history
+        // (additions in the middle of a hierarchy, deletions, renames): "all access structures".
+        if rng.pct(45) {
+            for di in 0..s.dims.len() {
+                if !rng.pct(60) {
+                    continue;
+                }
+                let dname = s.dims[di].name.clone();
+                let hierarchy = s.dims[di].hierarchy;
+                for _ in 0..rng.range(0, 2) {
+                    if s.dims[di].attrs.len() >= 5 {
+                        break;
+                    }
+                    let an = self.fresh_attr_name(rng, &s.dims[di]);
+                    let hybrid = rng.pct(self.sw.hybrid_pct);
+                    let after = if hierarchy && !s.dims[di].attrs.is_empty() && rng.pct(75) {
+                        Some(rng.pick(&s.dims[di].attrs).name.clone())
+                    } else {
+                        None
+                    };
+                    evs.push(Ev::AddAttr { dim: dname.clone(), name: an.clone(), hybrid, after: after.clone() });
+                    let attr = MAttr { ident: 0, name: an, hybrid, disabled: false };
+                    match (hierarchy, after) {
+                        (true, Some(a)) => {
+                            let pos = s.dims[di].attrs.iter().position(|x| x.name == a).unwrap();
+                            s.dims[di].attrs.insert(pos + 1, attr);
+                        }
+                        (true, None) => s.dims[di].attrs.insert(0, attr),
+                        _ => s.dims[di].attrs.push(attr),
+                    }
+                }
+                if s.dims[di].attrs.len() >= 2 && rng.pct(70) {
+                    // bias towards the lowest attributes of a hierarchy
+                    let k = if rng.pct(50) { 0 } else { rng.below(s.dims[di].attrs.len()) };
+                    let a = s.dims[di].attrs.remove(k);
+                    evs.push(Ev::DelAttr { dim: dname.clone(), name: a.name });
+                }
+                if !s.dims[di].attrs.is_empty() && rng.pct(30) {
+                    let k = rng.below(s.dims[di].attrs.len());
+                    let new = self.fresh_attr_name(rng, &s.dims[di]);
+                    let old = std::mem::replace(&mut s.dims[di].attrs[k].name, new.clone());
+                    evs.push(Ev::RenameAttr { dim: dname.clone(), name: old, new });
+                }
+            }
         }
         evs.push(Ev::Update);
         evs.push(Ev::Publish { to: (0..self.sw.n_encryptors).map(|e| (e, 0, false)).collect() });
